@@ -1,10 +1,11 @@
 import Enc.Lemmas.ProtoArray
 /-!
-# proto: `[]*T` and `**T` — groundwork only (NOT inside the round-trip / wire theorems)
+# proto: `[]*T` and `**T` — first facts and the two witnesses
 
-The universes `tyOK` / `tyOKM` (and `tyOK2` / `tyOKM2`) still exclude repeated pointers `[]*T` and pointer chains `**T`
-(`elemTy`, `ptrTarget`).  What is proved here are the model-level facts a reduction `[]*T ↦ []T`, `**T ↦ *T` rests on, and the
-two witnesses that show which value hypotheses such a theorem needs:
+The round-trip / wire-format theorems on message types with repeated pointers `[]*T` and pointer chains `**T` are in
+`Enc/Lemmas/ProtoPtrs{Defs,Model,Bridge,Spec,Main}.lean` (universes `tyOK3` / `tyOKM3`, by reduction `[]*T ↦ []T`, `**T ↦ *T`
+with the values translated). This file keeps the model-level facts that motivated the reduction and the two witnesses that
+show which value hypotheses (`ProtoPtrs.ptrsOK3`) those theorems need:
 
   * `encodeSlice_ptr`, `sizeSlice_ptr`   a list of NON-NIL pointers is written exactly like the list of its pointees
   * `decodeU_ptr_elem`                   one element of `[]*T` is decoded as a fresh `&T` from the zero value
@@ -14,11 +15,7 @@ two witnesses that show which value hypotheses such a theorem needs:
                                          which is not wire format (the reference parser rejects it): hypothesis "no nil
                                          element" is necessary for a bytes theorem
   * `ptr_to_nil_ptr_lost`                known finding proto-ptr-to-empty-encoding: `**int32` pointing to a nil `*int32`
-                                         writes nothing and comes back as nil: hypothesis `noEmptyPtr`-like is necessary
-
-Missing for the full theorems: a codec-level relation between `codecOf t` and the codec of the reduced type (they differ
-in the slice element / pointer nodes, unlike defined types, where the trees coincide), carried through `size`, `encode`,
-`decodeU`, `Spec.Protobuf.decode` and `canonical` with the VALUES translated (`.ptr v ↦ v`); see the report of agent B7.
+                                         writes nothing and comes back as nil: hypothesis "complete chain" is necessary
 -/
 set_option linter.unusedSimpArgs false
 set_option linter.unusedVariables false
